@@ -177,7 +177,7 @@ type c06Point struct {
 }
 
 var c06Methods = []string{"GET", "POST", "PUT", "DELETE", "HEAD", "OPTIONS"}
-var c06Origins = []string{"absent", "same", "other-origin", "other-referer", "same-host-other-port", "malformed", "lookalike-suffix-origin", "lookalike-prefix-origin", "lookalike-userinfo-origin", "lookalike-suffix-referer"}
+var c06Origins = []string{"absent", "same", "other-origin", "other-referer", "same-host-other-port", "malformed", "lookalike-suffix-origin", "lookalike-prefix-origin", "lookalike-userinfo-origin", "lookalike-suffix-referer", "null-origin", "null-origin-same-referer", "other-origin-same-referer"}
 
 func c06PathFor(pattern string) string {
 	switch {
@@ -236,6 +236,15 @@ func c06Build(w *vfWorld, p c06Point) vfReq {
 		q.Header["Origin"] = "https://" + vfHost + "@evil.example.net"
 	case "lookalike-suffix-referer":
 		q.Header["Referer"] = "https://" + vfHost + ".evil.example.net/page.html"
+	// an opaque origin (sandboxed frame, data: page): browsers send the literal "null"
+	case "null-origin":
+		q.Header["Origin"] = "null"
+	case "null-origin-same-referer":
+		q.Header["Origin"] = "null"
+		q.Header["Referer"] = "https://" + vfHost + "/page.html"
+	case "other-origin-same-referer":
+		q.Header["Origin"] = "https://evil.example.net"
+		q.Header["Referer"] = "https://" + vfHost + "/page.html"
 	}
 	q.Cookies = []*http.Cookie{{Name: vipTransactionCookieName, Value: "push-cookie-1"}}
 	return q
@@ -304,7 +313,7 @@ func c06Run(w *vfWorld, f *vfFakes, shapes map[string]vfCredShape, p c06Point) (
 			dont = true
 		}
 	}
-	crossSite := p.Origin == "other-origin" || p.Origin == "other-referer" || strings.HasPrefix(p.Origin, "lookalike-")
+	crossSite := p.Origin == "other-origin" || p.Origin == "other-referer" || strings.HasPrefix(p.Origin, "lookalike-") || strings.HasPrefix(p.Origin, "null-origin") || p.Origin == "other-origin-same-referer"
 	desc := fmt.Sprintf("%s %s shape=%s with=%q origin=%s -> status %d, admitted=%q, rows changed for %v, transaction-state changed=%v, signed=%v", p.Method, p.Path, p.Shape, p.With, p.Origin, resp.Code, admitted, changedUsers, tx, signed)
 	if resp.Panic != nil {
 		return false, "", "", fmt.Sprintf("%s|panic", pclass), true
